@@ -11,17 +11,14 @@
 package main
 
 import (
-	"fmt"
 	"io"
 	"log"
 	"math/rand"
-	"strconv"
 
 	"github.com/PapaCharlie/go-restli/v2/fnv1a"
 	"github.com/PapaCharlie/go-restli/v2/restlicodec"
 
 	"verifh/ev"
-	"verifh/gen/ks/ks/kt"
 	"verifh/props/c16/gen1"
 	"verifh/props/c16/gen2"
 )
@@ -52,155 +49,6 @@ func tagKT() gen2.KT[Tag] {
 	return k
 }
 
-func colorKT() gen2.KT[kt.Color] {
-	canon := func(c kt.Color) string { return c.String() }
-	return gen2.KT[kt.Color]{
-		Name: "generated-enum",
-		Pool: func(rng *rand.Rand, n int) []kt.Color {
-			all := kt.AllColorValues()
-			rng.Shuffle(len(all), func(i, j int) { all[i], all[j] = all[j], all[i] })
-			if n < len(all) {
-				all = all[:n]
-			}
-			return all
-		},
-		Canon: canon, KeyCanon: canon,
-		Tree: func(c kt.Color) any { return canon(c) },
-		FromTree: func(t any) (string, error) {
-			if s, ok := t.(string); ok {
-				if _, err := kt.GetColorFromString(s); err == nil {
-					return s, nil
-				}
-			}
-			return "", fmt.Errorf("not a Color: %v", t)
-		},
-	}
-}
-
-var ckStrings = []string{"", "a", "a,b", "(a)", "a:b", "a'b", "%", "a%2Cb", "é", "a b", "$params", "List()", "日本", "a/b", "a+b", "a&b=c"}
-
-func ckKeyCanon(c *kt.CK) string { return fmt.Sprintf("a=%q|b=%d", c.A, c.B) }
-func ckCanon(c *kt.CK) string {
-	p := "-"
-	if c.Params != nil {
-		q := "-"
-		if c.Params.Q != nil {
-			q = fmt.Sprint(*c.Params.Q)
-		}
-		p = fmt.Sprintf("p=%q,q=%s", c.Params.P, q)
-	}
-	return ckKeyCanon(c) + "|params=" + p
-}
-func ckTree(c *kt.CK) any {
-	m := map[string]any{"a": c.A, "b": strconv.FormatInt(c.B, 10)}
-	if c.Params != nil {
-		p := map[string]any{"p": c.Params.P}
-		if c.Params.Q != nil {
-			p["q"] = fmt.Sprint(*c.Params.Q)
-		}
-		m["$params"] = p
-	}
-	return m
-}
-func ckParams(rng *rand.Rand) *kt.ParamPart {
-	if rng.Intn(3) == 0 {
-		return nil
-	}
-	p := &kt.ParamPart{P: ckStrings[rng.Intn(len(ckStrings))]}
-	if rng.Intn(2) == 0 {
-		q := int32(rng.Intn(50))
-		p.Q = &q
-	}
-	return p
-}
-
-func ckKT() gen2.KT[*kt.CK] {
-	k := gen2.KT[*kt.CK]{
-		Name: "generated-complex",
-		Pool: func(rng *rand.Rand, n int) []*kt.CK {
-			seen := map[string]bool{}
-			var out []*kt.CK
-			for len(out) < n {
-				c := &kt.CK{KeyPart: kt.KeyPart{A: ckStrings[rng.Intn(len(ckStrings))], B: int64(rng.Intn(5))}, Params: ckParams(rng)}
-				if rng.Intn(4) == 0 {
-					c.B = rng.Int63() - rng.Int63()
-				}
-				if !seen[ckKeyCanon(c)] {
-					seen[ckKeyCanon(c)] = true
-					out = append(out, c)
-				}
-			}
-			return out
-		},
-		Canon: ckCanon, KeyCanon: ckKeyCanon, Tree: ckTree,
-		FromTree: func(t any) (string, error) {
-			m, ok := t.(map[string]any)
-			if !ok {
-				return "", fmt.Errorf("not a complex key: %v", t)
-			}
-			c := &kt.CK{}
-			a, okA := m["a"].(string)
-			b, okB := m["b"].(string)
-			if !okA || !okB {
-				return "", fmt.Errorf("key part incomplete: %v", t)
-			}
-			c.A = a
-			n, err := strconv.ParseInt(b, 10, 64)
-			if err != nil {
-				return "", err
-			}
-			c.B = n
-			for f, v := range m {
-				switch f {
-				case "a", "b":
-				case "$params":
-					pm, ok := v.(map[string]any)
-					if !ok {
-						return "", fmt.Errorf("$params is not a record")
-					}
-					c.Params = &kt.ParamPart{}
-					for pf, pv := range pm {
-						ps, _ := pv.(string)
-						switch pf {
-						case "p":
-							c.Params.P = ps
-						case "q":
-							q, err := strconv.ParseInt(ps, 10, 32)
-							if err != nil {
-								return "", err
-							}
-							q32 := int32(q)
-							c.Params.Q = &q32
-						default:
-							return "", fmt.Errorf("unexpected params member %q", pf)
-						}
-					}
-				default:
-					return "", fmt.Errorf("unexpected key member %q", f)
-				}
-			}
-			return ckCanon(c), nil
-		},
-		Twin: func(c *kt.CK, rng *rand.Rand) (*kt.CK, bool) {
-			return &kt.CK{KeyPart: c.KeyPart, Params: ckParams(rng)}, true
-		},
-		AltTrees: func(c *kt.CK, rng *rand.Rand) []any {
-			var out []any
-			for i := 0; i < 2; i++ {
-				out = append(out, ckTree(&kt.CK{KeyPart: c.KeyPart, Params: ckParams(rng)}))
-			}
-			return out
-		},
-		Hash: func(c *kt.CK) uint32 { return uint32(c.ComputeComplexKeyHash().MapKey()) },
-	}
-	k.Collide = func(rng *rand.Rand, want int) [][]*kt.CK {
-		return gen2.FindCollisions(want, 400000, func(i int) *kt.CK {
-			return &kt.CK{KeyPart: kt.KeyPart{A: gen2.MixName(i), B: int64(i % 2)}}
-		}, k.Hash)
-	}
-	return k
-}
-
 func main() {
 	log.SetOutput(io.Discard)
 	run := ev.Start("C16")
@@ -216,9 +64,9 @@ func main() {
 	)
 	gen2.RunAll(run, rng, cases)
 	gen2.RunType(run, rng, tagKT(), cases)
-	gen2.RunType(run, rng, colorKT(), cases/2)
-	gen2.RunType(run, rng, ckKT(), cases)
+	gen2.RunGenerated(run, rng, cases)
 	gen1.RunAll(run, rng, cases)
+	gen1.RunGenerated(run, rng, cases)
 	run.Require("v2.ids_checked", 100)
 	run.Require("root.ids_checked", 100)
 	run.Require("v2.entries_correlated", 100)
